@@ -64,7 +64,16 @@ func runTVDriver(c *Ctx, rule string) {
 		}
 		k := short + ".ParquetReader.Scan order"
 		okOrder, why := true, ""
-		names := rtField(u, path, "ParquetReader", "fieldNames")
+		var names *types.Var
+		if o := u.Pkgs[path].Types.Scope().Lookup("ParquetReader"); o != nil {
+			if st, ok := o.Type().Underlying().(*types.Struct); ok {
+				for i := 0; i < st.NumFields(); i++ {
+					if roleOf(st.Field(i)) == "fieldNames" {
+						names = st.Field(i)
+					}
+				}
+			}
+		}
 		// Scan: invoke Field.Scan on p.fields[name] for name ranging over p.fieldNames
 		found := false
 		for _, b := range scan.Blocks {
@@ -286,7 +295,7 @@ func checkColumnScan(fi *fieldImpl) string {
 	for _, b := range fi.scan.Blocks {
 		for _, ins := range b.Instrs {
 			if cl, ok := ins.(*ssa.Call); ok && !cl.Call.IsInvoke() && cl.Call.StaticCallee() == nil {
-				if f := fieldOfLoad(cl.Call.Value); f != nil && f.Name() == "write" {
+				if f := fieldOfLoad(cl.Call.Value); f != nil && roleOf(f) == "write" {
 					call = cl
 				}
 			}
@@ -326,7 +335,7 @@ func checkColumnScan(fi *fieldImpl) string {
 			if f == nil {
 				continue
 			}
-			w, tracked := want[f.Name()]
+			w, tracked := want[roleOf(f)]
 			if !tracked {
 				continue
 			}
@@ -345,7 +354,7 @@ func checkColumnScan(fi *fieldImpl) string {
 			} else if !constIs(sl.Low, 1) {
 				return "a required column must consume exactly one value per record"
 			}
-			seen[f.Name()] = true
+			seen[roleOf(f)] = true
 		}
 	}
 	for k := range want {
